@@ -81,6 +81,8 @@ func JS(ops []Op) string {
 			fmt.Fprintf(&b, "(function(o) { if (o && typeof o === 'object') { if (o.length !== undefined) { if (o.length > 0) { o[0] = 'mut'; } } else { o.mut = 1; } } })(_.bindings[%s]);\n", js(o.K))
 		case "delall":
 			b.WriteString("for (var k__ in _.bindings) { delete _.bindings[k__]; }\n")
+		case "mutprops":
+			b.WriteString("(function(p) { function m(o) { if (o && typeof o === 'object') { if (o.length !== undefined) { for (var i = 0; i < o.length; i++) { if (o[i] && typeof o[i] === 'object') { m(o[i]); } else { o[i] = 'mut'; } } } else { for (var k in o) { if (o[k] && typeof o[k] === 'object') { m(o[k]); } } o.mut = 1; } } } m(p); })(_.props);\n")
 		case "fresh":
 			fmt.Fprintf(&b, "return %s;\n", js(o.V))
 		case "retnull":
